@@ -45,6 +45,7 @@ CONSTANTS N,            \* number of parallel indexes
           KillDelays,   \* set of delays (0 = now) the user may choose for the kill timestamp; {} = never kills
           KillEdits,    \* set of delays (99 = remove the timestamp) the user may move a kill timestamp to that has not yet passed
           UserDeletes, ExtDeletes, NodeDowns,  \* BOOLEAN switches for environment actions
+          Holds,        \* BOOLEAN: the Job was submitted with another controller's finalizer next to furiko's (released only after deletion)
           Rejects       \* BOOLEAN: the queue controller may refuse the Job before it starts (admission-error annotation)
 
 Idx == 0..(N - 1)
@@ -54,7 +55,7 @@ Slots == Idx \X Att
 NoPod == [ex |-> FALSE, mine |-> TRUE, ph |-> "P", dl |-> 0, cr |-> 0, ran |-> FALSE, fin |-> 0, uid |-> 0]
 NoRef == [ex |-> FALSE, cr |-> 0, run |-> 0, fin |-> 0, res |-> "", lost |-> FALSE, ds |-> ""]
 NoRefs == [s \in Slots |-> NoRef]
-NoJob == [ex |-> FALSE, rv |-> 0, st |-> 0, kill |-> 0, del |-> FALSE, fz |-> FALSE, adm |-> FALSE,
+NoJob == [ex |-> FALSE, rv |-> 0, st |-> 0, kill |-> 0, del |-> FALSE, fz |-> FALSE, hold |-> FALSE, adm |-> FALSE,
           refs |-> NoRefs, kind |-> "", result |-> "", fints |-> 0]
 NoPods == [s \in Slots |-> NoPod]
 
@@ -215,7 +216,12 @@ UserRekill(d) == /\ job.ex /\ job.kill # 0 /\ job.kill > now /\ RoomJ /\ (d = 99
                  /\ last' = [a |-> "UserRekill", d |-> d] /\ Ghosts
 
 \* DELETE of a Job: finalizer present => deletionTimestamp; otherwise the object is removed
-ApiDeleteJob == IF job.fz THEN WriteJob([job EXCEPT !.del = TRUE]) ELSE (rvc' = rvc + 1 /\ job' = NoJob /\ EmitJob(NoJob))
+ApiDeleteJob == IF job.fz \/ job.hold THEN WriteJob([job EXCEPT !.del = TRUE]) ELSE (rvc' = rvc + 1 /\ job' = NoJob /\ EmitJob(NoJob))
+\* the other controller releases its finalizer once the Job is being deleted; the object goes when no finalizer is left
+ReleaseHold == /\ job.ex /\ job.hold /\ job.del /\ RoomJ
+               /\ IF job.fz THEN WriteJob([job EXCEPT !.hold = FALSE]) ELSE (rvc' = rvc + 1 /\ job' = NoJob /\ EmitJob(NoJob))
+               /\ UNCHANGED <<now, pods, jc, pc, pq, wq, timer, retry, pass, down, faults, crashes, uidc, edited, udel, ttlAt, ttlLB, taint>>
+               /\ last' = [a |-> "ReleaseHold"] /\ Ghosts
 UserDelete == /\ UserDeletes /\ job.ex /\ ~job.del /\ RoomJ
               /\ ApiDeleteJob
               /\ edited' = (edited \/ job.kind = "Finished") /\ udel' = TRUE
@@ -434,7 +440,7 @@ StepUpdateJob(f) ==
     /\ LET view == pass.lc
            ok == f = "ok" /\ job.ex /\ job.rv = pass.base.rv
            nj == [job EXCEPT !.adm = pass.j.adm, !.fz = pass.j.fz]
-           gone == ok /\ nj.del /\ ~nj.fz
+           gone == ok /\ nj.del /\ ~nj.fz /\ ~nj.hold
            c1 == IF StatusChanged(pass) THEN [pass EXCEPT !.pc = "updstatus"] ELSE [pass EXCEPT !.pc = "end"]
        IN /\ IF ~ok THEN UNCHANGED <<job, jq, rvc>>
              ELSE IF gone THEN rvc' = rvc + 1 /\ job' = NoJob /\ EmitJob(NoJob)
@@ -474,7 +480,7 @@ CrashRestart ==
     /\ last' = [a |-> "CrashRestart"] /\ Ghosts
 
 --------------------------------------------------------------------------
-InitJob == [NoJob EXCEPT !.ex = TRUE, !.rv = 1, !.fz = TRUE]
+InitJob == [NoJob EXCEPT !.ex = TRUE, !.rv = 1, !.fz = TRUE, !.hold = Holds]
 InitPods == IF Foreign THEN [NoPods EXCEPT ![<<0, 0>>] = [NoPod EXCEPT !.ex = TRUE, !.mine = FALSE, !.cr = 1, !.uid = 1]] ELSE NoPods
 Init ==
     /\ now = 1 /\ job = InitJob /\ pods = InitPods /\ jc = InitJob /\ pc = InitPods /\ jq = <<>> /\ pq = <<>>
@@ -482,7 +488,7 @@ Init ==
     /\ ever = {} /\ succ = {} /\ listed = {} /\ succRec = {} /\ edited = FALSE /\ udel = FALSE /\ ttlAt = 0 /\ ttlLB = 0 /\ doneAt = 0
     /\ taint = "" /\ last = [a |-> "Init"]
 
-Env == \/ Tick \/ Start \/ Reject \/ UserDelete \/ DeliverJob \/ DeliverPod \/ TimerFire \/ RetryFire \/ CrashRestart
+Env == \/ Tick \/ Start \/ Reject \/ UserDelete \/ ReleaseHold \/ DeliverJob \/ DeliverPod \/ TimerFire \/ RetryFire \/ CrashRestart
        \/ \E d \in KillDelays : UserKill(d)
        \/ \E d \in KillEdits : UserRekill(d)
        \/ \E s \in Slots : Kubelet(s, "R") \/ Kubelet(s, "S") \/ Kubelet(s, "F") \/ KubeletGone(s) \/ NodeDown(s) \/ ExternalDelete(s)
@@ -551,7 +557,9 @@ G_Kill == OkS((Quiescent /\ job.ex /\ job.st # 0 /\ ~job.del /\ job.kill # 0 /\ 
                  ((\A s \in Mine(pods) : Alive(pods[s]) => (s \in down /\ (Forbid \/ FD = 0))) /\ ((\A s \in Mine(pods) : ~Alive(pods[s])) => job.result \in {"Killed", "AdmissionError"})))
 G_Reaches == OkS((Quiescent /\ job.ex /\ job.st # 0 /\ ~job.del /\ ~job.adm /\ job.kill = 0 /\ DecidedRec(job) /\ ~Stuck) => job.kind = "Finished")
 G_Listed == OkS((Quiescent /\ job.ex /\ ~job.del) => \A s \in Mine(pods) : job.refs[s].ex)
-G_Deleted == OkS((Quiescent /\ job.ex /\ job.del) => \E s \in Mine(pods) : s \in down)
+G_Deleted == OkS((Quiescent /\ job.ex /\ job.del /\ ~job.hold) => \E s \in Mine(pods) : s \in down)
+\* while the Job is being deleted furiko's finalizer is only given up when none of the tasks it recorded is left
+G_FinalizerHeld == OkS((job.ex /\ job.del /\ ~job.fz) => \A s \in Slots : job.refs[s].ex => ~(pods[s].ex /\ pods[s].mine))
 G_Foreign == OkS((Quiescent /\ Foreign /\ pods[<<0, 0>>].ex /\ ~pods[<<0, 0>>].mine /\ job.ex /\ job.st # 0 /\ ~job.del /\ job.kill = 0) => job.result = "AdmissionError")
 
 TypeOK == /\ now \in 1..MaxTime /\ faults \in 0..MaxFaults /\ crashes \in 0..MaxCrash
